@@ -118,7 +118,21 @@ class C15(Prop):
                    "seed": rng.randint(0, 10 ** 6)}
 
     # ---------------- evaluation of one instance
-    def _eval_ordinal(self, alts, profile, small):
+    @staticmethod
+    def _via_api(alts, profile, rng):
+        """the same multiset of ballots added through the public API, regrouped into random batches"""
+        from preflibtools.instances import OrdinalInstance
+        votes = [tuple((a,) for a in o) for o, c in profile for _ in range(c)]
+        rng.shuffle(votes)
+        inst = OrdinalInstance()
+        i = 0
+        while i < len(votes):
+            j = min(len(votes), i + rng.choice([1, 2, 3, 5, 20, 100]))
+            inst.append_order_list(votes[i:j])
+            i = j
+        return inst
+
+    def _eval_ordinal(self, alts, profile, small, api_rng=None):
         from preflibtools.properties.subdomains.ordinal.singlepeaked import singlepeakedness as S
         from preflibtools.properties.subdomains.ordinal import singlecrossing as SC
         from preflibtools.properties.subdomains.ordinal.singlepeaked.single_peaked_tree import is_single_peaked_on_tree
@@ -128,7 +142,12 @@ class C15(Prop):
         from preflibtools.properties import pairwisecomparisons as PC
         from preflibtools.aggregation import singlewinner as SW
         prof = [(tuple((a,) for a in o), c) for o, c in profile]
-        mk = lambda: gen.make_ordinal(prof, alts=alts, data_type="soc")
+        if api_rng is not None:
+            import copy
+            built = self._via_api(alts, profile, api_rng)
+            mk = lambda: copy.deepcopy(built)
+        else:
+            mk = lambda: gen.make_ordinal(prof, alts=alts, data_type="soc")
         n, m = len(profile), len(alts)
         res = {}
         v = lambda r: r if r[0] != "ok" else ("ok", bool(r[1][0]) if isinstance(r[1], tuple) else bool(r[1]))
@@ -206,10 +225,12 @@ class C15(Prop):
             return {"base": base, "variants": out}
         base = self._eval_ordinal(alts, case["profile"], case["small"])
         out = []
-        for s in variants:
+        for k, s in enumerate(variants):
             prof = [[[s[a] for a in o], c] for o, c in case["profile"]]
             rng.shuffle(prof)
-            out.append((s, self._eval_ordinal(gen.perm(rng, [s[a] for a in alts]), prof, case["small"])))
+            # every other variant is built through append_order_list in random batches (a different history)
+            out.append((s, self._eval_ordinal(gen.perm(rng, [s[a] for a in alts]), prof, case["small"],
+                                              api_rng=rng if k % 2 == 0 else None)))
         return {"base": base, "variants": out}
 
     def requests(self, case, obs):
